@@ -3,7 +3,7 @@ from props import mmr_common as mc
 
 ID = "C12"
 GEN_TAGS = []
-PROOF_TARGETS = ["proofs/MmrProofs.vo", "proofs/MmrSmall.vo", "proofs/MmrUpdates.vo", "proofs/MmrBatch.vo", "proofs/MmrHistory.vo"]
+PROOF_TARGETS = ["proofs/MmrProofs.vo", "proofs/MmrSmall.vo", "proofs/MmrUpdates.vo", "proofs/MmrBatch.vo", "proofs/MmrHistory.vo", "proofs/MmrSuccRej.vo"]
 PROPS_FILE = "props/C12.v"
 EXTRACT = "extract/ExtractMmr.vo"
 ORACLE = ("gen_mmr", "mmr.ml")
